@@ -379,7 +379,8 @@ def runV1 (op : String) : Option (P String) :=
     let m ← pV1Metas; let a ← pNode; let b ← pNode
     -- Diff then Patch on the same in-memory values (path objects alias members of a)
     let r := V1.diffPatchShared m a b
-    pure (v1EncDiff r.1 ++ " " ++ encOutcome encNode r.2)
+    if V1.hasSet m && v1KeyTwin m (subterms a ++ subterms b) then pure (v1EncDiff r.1 ++ " kfskip")  -- see Ops.lean "diffpatch"
+    else pure (v1EncDiff r.1 ++ " " ++ encOutcome encNode r.2)
   | "v1echodiff" => some do
     let d ← pV1Diff
     pure (v1EncPDiff d)
